@@ -4,7 +4,7 @@
 (*                                                                         *)
 (* Impl side : one action per critical section / channel operation of      *)
 (*   keylock.go      partitionLocker.lock / unlock        Lock, Unlock     *)
-(*                                                        (WLock, WUnlock) *)
+(*                   (also taken by processJob)           WLock, WUnlock   *)
 (*   query.go, config.go, flags.go, metadata.go           Enqueue          *)
 (*   range.go        RangeQuery: one goroutine per slice, Enqueue (fan-out)*)
 (*                   no lock per slice, cancel on error   cancelled        *)
@@ -24,8 +24,9 @@
 (*   (inflight, nreq, nfail, nexp) and on what CALLERS receive (reply):    *)
 (*   NoTwin, Bounded, Once, Agree.                                         *)
 (*                                                                         *)
-(* SliceLock = TRUE models processJob serialised per cache key (the repair *)
-(* proposed for finding F10); FALSE is the pinned code.                    *)
+(* processJob is serialised per cache key (WLock / WUnlock on "job/<key>"): *)
+(* the repair of finding F10 (commit 07edeb9). Without these two actions   *)
+(* the scenario "f10" of PromClientMC violates NoTwin, Once and Agree.     *)
 (***************************************************************************)
 EXTENDS Integers, Sequences, FiniteSets, TLC
 
@@ -36,8 +37,7 @@ CONSTANTS Callers,     \* goroutines calling Query / RangeQuery / Config / Flags
           ReqsOf,      \* [Questions -> SUBSET STRING]    cache keys of the requests it fans out into
           QueueCap,    \* capacity of prom.queries (= concurrency * 10 in the code)
           MaxFail,     \* bound on injected request failures
-          MaxExpire,   \* bound on cache expiries (TTL / gc)
-          SliceLock    \* BOOLEAN
+          MaxExpire    \* bound on cache expiries (TTL / gc)
 
 VARIABLES ask,        \* [Callers -> Questions]
           cpc,        \* caller pc: "wantLock" | "locked" | "done"
@@ -74,7 +74,7 @@ IndexOf(s, x) == CHOOSE i \in 1..Len(s) : s[i] = x
 InQueue(x) == \E i \in 1..Len(queue) : queue[i] = x
 NoReply == [done |-> FALSE, ok |-> FALSE, ans |-> {}]
 EmptyFn == [x \in {} |-> 0]
-AfterRun == IF SliceLock THEN "wunlock" ELSE "reply"
+AfterRun == "wunlock"
 
 Init ==
   /\ ask \in [Callers -> Questions]
@@ -149,10 +149,10 @@ Dequeue(w, j) ==
   /\ DequeueG(w, j)
   /\ queue' = RemoveAt(queue, IndexOf(queue, j))
   /\ wjob' = [wjob EXCEPT ![w] = <<j>>]
-  /\ wpc' = [wpc EXCEPT ![w] = IF SliceLock THEN "wantSlice" ELSE "got"]
+  /\ wpc' = [wpc EXCEPT ![w] = "wantSlice"]
   /\ UNCHANGED <<cvars, locked, mail, wres, cache, inflight, hvars>>
 
-\* (repair only) processJob takes the locker on the cache key
+\* processJob: prom.locker.lock("job/" + cacheKey)
 WLockG(w, lk) == wpc[w] = "wantSlice" /\ lk \notin locked
 WLock(w, lk) ==
   /\ WLockG(w, lk)
@@ -209,7 +209,7 @@ CacheSet(w) ==
   /\ wpc' = [wpc EXCEPT ![w] = AfterRun]
   /\ UNCHANGED <<cvars, locked, queue, mail, wjob, wres, inflight, hvars>>
 
-\* (repair only) deferred unlock of the cache key
+\* processJob: deferred prom.locker.unlock("job/" + cacheKey)
 WUnlockG(w, lk) == wpc[w] = "wunlock" /\ lk \in locked
 WUnlock(w, lk) ==
   /\ WUnlockG(w, lk)
